@@ -25,7 +25,7 @@ META = {
             'shapes; every (reachable state, request) transition TLC enumerates is replayed on real frappy Module '
             'subclasses with a recording driver behind the real Dispatcher (wrapped like RequestHandler.handle) and '
             'compared clause by clause; recorded random shapes x random request sequences are judged event by event by '
-            'TLC (Trace_Dispatch). Bounded (depth, value catalogue, 6 datatypes), exhaustive over transitions inside it.',
+            'TLC (Trace_Dispatch). Bounded (depth, value catalogue, 6 datatypes), exhaustive over transitions inside it. Concurrent requests of 2-3 connections at the real dispatcher run under the deterministic scheduler (every source line a preemption point) and are validated against DispSerial.tla: served one at a time, the driver gets the payload merged into the current value, every reply reports its own request (design: DispLock.tla, the unlocked variant is shown to fail).',
     'note': 'Trusted: TLC; the alpha/gamma glue in harness/dispatch_common.py (abstract values <-> JSON/Python values, '
             'class generator, error mapping copied from handler.py). Not in the alphabet: malformed specifiers, inverted '
             'limit pairs (C18), booleans offered to numbers, null struct members, drivers that raise or return invalid '
